@@ -178,6 +178,13 @@ def stampsOf (l : List Item) : List (Option Rat) := l.map (·.2)
 def onPoses (f : List P → List P) (l : List Item) : List Item :=
   List.zipWith (fun p it => (p, it.2)) (f (poses l)) l
 
+/-- the abstract trajectory a constructor call denotes -/
+def mkItems (ps : List P) : Option (List Rat) → List Item
+  | none => ps.map (fun p => (p, none))
+  | some l => List.zipWith (fun p t => (p, some t)) ps l
+
+def ATraj.init (ps : List P) (stamps : Option (List Rat)) : ATraj := ⟨mkItems ps stamps, stamps.isSome, false⟩
+
 def ATraj.stampsView (a : ATraj) : Option (List Rat) :=
   if a.timed then some (a.items.filterMap (·.2)) else none
 
@@ -197,11 +204,18 @@ def checkOut (ps : List P) (stamps : Option (List Rat)) : Out :=
        | none => true
        | some l => decide (l.length = ps.length) && strictAsc l)
 
+/-- pose-list effect of `align()` for a given Umeyama triple: `scale(c)` and/or `transform(se3(r, t))` -/
 def alignPoses (am : AlignMode) (r : M3 Rat) (t : V3 Rat) (c : Rat) (norm : Option Rat) (ps : List P) : List P :=
   match am with
   | .onlyScale => ps.map (scalePose c)
   | .withScale => transformFull .left (se3Of r t) norm (ps.map (scalePose c))
   | .rigid => transformFull .left (se3Of r t) norm ps
+
+def alignItems (am : AlignMode) (r : M3 Rat) (t : V3 Rat) (c : Rat) (norm : Option Rat) (l : List Item) : List Item :=
+  match am with
+  | .onlyScale => onPoses (List.map (scalePose c)) l
+  | .withScale => onPoses (transformFull .left (se3Of r t) norm) (onPoses (List.map (scalePose c)) l)
+  | .rigid => onPoses (transformFull .left (se3Of r t) norm) l
 
 def specStep (a : ATraj) : Op → ATraj × Out
   | .transform m T norm => ({ a with items := onPoses (transformFull m T norm) a.items }, .unit)
@@ -213,7 +227,7 @@ def specStep (a : ATraj) : Op → ATraj × Out
       else ({ a with items := reduceIds a.items ids }, .unit)
   | .motionFilter ids => ({ a with items := reduceIds a.items ids }, .unit)
   | .crop ids => if a.timed then ({ a with items := reduceIds a.items ids }, .unit) else (a, .err)
-  | .align am r t c norm => ({ a with items := onPoses (alignPoses am r t c norm) a.items }, .unit)
+  | .align am r t c norm => ({ a with items := alignItems am r t c norm a.items }, .unit)
   | .alignOrigin ref norm =>
       match poses a.items with
       | [] => (a, .err)
